@@ -478,4 +478,41 @@ def rule_i(ctx: Ctx) -> None:
     own_scope(ctx, 'C17.i')
 
 
-RULES = [rule_a, rule_b, rule_c, rule_d, rule_e, rule_f, rule_g, rule_h, rule_i]
+def rule_j(ctx: Ctx) -> None:
+    """A converter decodes and encodes in the same xmlns mode: the default mode is read from the `stackable` marker of the *effective*
+    element_decode (XML source) or element_encode (data source).  Data decoded in stacked mode carries nested, scope-dependent prefix
+    declarations which only a stacked encoder resolves - a collapsed encoder renames a shadowing prefix and resolves the descendants'
+    names through the outer binding.  So for every converter class the two effective methods (after inheritance) carry the marker alike."""
+    rule = 'C17.j'
+    n = 0
+    base = ctx.idx.cls('xmlschema.converters.base.XMLSchemaConverter')
+    pd = base.find_method('xmlns_processing_default')
+    reads = sorted({text(c.args[0]) for c in calls(pd.node) if isinstance(c.func, ast.Name) and c.func.id == 'getattr' and len(c.args) >= 2
+                    and isinstance(c.args[1], ast.Constant) and c.args[1].value == 'stackable'}) if pd else []
+    ok = reads == ['self.element_decode', 'self.element_encode']
+    ctx.ob(rule, 'xmlns_processing_default reads the marker of the bound element_decode / element_encode', pd.loc() if pd else f'{base.module.relpath}:{base.node.lineno}', ok,
+           f'{reads}', key='xmlns_processing_default|marker-reads', nontrivial=False)
+    for c in ctx.idx.classes.values():
+        if c.module.name.startswith(('xmlschema.testing', 'xmlschema.extras')):
+            continue
+        if base not in c.mro():
+            continue
+        marks = {}
+        for m in ('element_decode', 'element_encode'):
+            f = c.find_method(m)
+            if f is None or isinstance(f.node, ast.Lambda):
+                raise AnalysisError(f'{rule}: {c.qualname} has no {m}')
+            marks[m] = (any(text(d).split('.')[-1] == 'stackable' for d in f.node.decorator_list), f)
+        n += 1
+        ok = marks['element_decode'][0] == marks['element_encode'][0]
+        odd = marks['element_encode'][1] if marks['element_decode'][0] else marks['element_decode'][1]
+        ctx.ob(rule, f'{c.name}: the effective element_decode and element_encode agree on the stackable marker', odd.loc() if not ok else f'{c.module.relpath}:{c.node.lineno}', ok,
+               f'both {"stacked" if marks["element_decode"][0] else "collapsed"}' if ok else
+               f'element_decode (from {marks["element_decode"][1].cls.name}) is {"" if marks["element_decode"][0] else "not "}stackable, element_encode (from '
+               f'{marks["element_encode"][1].cls.name}) is {"" if marks["element_encode"][0] else "not "}stackable: decoded data carries nested xmlns declarations that the '
+               'encoder flattens - a descendant under a re-bound prefix is encoded into the outer namespace', key=f'{c.qualname}|stackable-agreement')
+    ctx.floor(rule, 'converter classes', n, 9)
+    ctx.explain('C17.j: for every subclass of XMLSchemaConverter the methods element_decode and element_encode found through the MRO both carry @stackable or neither does.')
+
+
+RULES = [rule_a, rule_b, rule_c, rule_d, rule_e, rule_f, rule_g, rule_h, rule_i, rule_j]
